@@ -1,0 +1,23 @@
+//go:build verif
+
+package sinkcluster
+
+// Machine-checked contracts (read by /verif/engine; comment-only, compiled only with -tags verif).
+//
+// Window selection of the distinct-IP journal (C19): a chunk is merged into the estimate exactly when its recording
+// interval lies inside [from, to]. inWindow counts the decoded chunks that do; merged counts the sketches merged.
+// (The sketch arithmetic itself - hyperloglog - is an external library and is not under contract.)
+//@ ghost var inWindow int
+//@ ghost var merged int
+//@ func (c ClusterCounter) Count(reader io.Reader) (r *ClusterCountResult, err error)
+//@   props C19
+//@   model int
+//@   flag nooverflow   (a journal holds fewer than 2^63 chunks)
+//@   at entry ghost inWindow = 0
+//@   at entry ghost merged = 0
+//@   after call Unmarshal ghost inWindow = inWindow + 1 if ret0 == nil && sinkInfo.RecordingStart >= c.from && sinkInfo.RecordingEnd <= c.to
+//@   at call Merge assert {only-chunks-inside-the-window} sinkInfo.RecordingStart >= c.from && sinkInfo.RecordingEnd <= c.to
+//@   at call Merge ghost merged = merged + 1
+//@   loop 1 invariant result.ChunkIncluded == inWindow && merged == inWindow
+//@   ensures err == nil ==> r != nil && r.ChunkIncluded == inWindow && merged == inWindow
+//@   ensures err != nil ==> r == nil
